@@ -128,7 +128,17 @@ def stepwise_engine():
     return e
 
 
-SPECIAL_ENGINES = {"stepwise": stepwise_engine}
+def reused_engine():
+    """An engine built from the variables and rule blocks of an EARLIER engine (Linear / Function terms were attached to that one)."""
+    import copy
+    prototype = R.build(c13.engine_recipes()[2])  # Takagi-Sugeno with a Linear and a Function term
+    inputs = [copy.deepcopy(v) for v in prototype.input_variables]  # its own input variables (the prototype's stay unset) ...
+    blocks = [fl.RuleBlock(b.name, b.description, b.enabled, b.conjunction, b.disjunction, b.implication, b.activation,
+                           [fl.Rule.create(r.text) for r in b.rules]) for b in prototype.rule_blocks]
+    return fl.Engine("product", "built from the output variables of another engine", inputs, prototype.output_variables, blocks)  # ... reused outputs
+
+
+SPECIAL_ENGINES = {"stepwise": stepwise_engine, "reused": reused_engine}
 
 
 def run_recipe(acc: Acc, group: str, label: str, recipe: dict, aliases, formatted_too: bool) -> None:
@@ -321,11 +331,18 @@ def run_shard(tier: str, seed: int, shard: int):
                 iv.value = 0.3
             E.process()
             acc.guard({"label": f"components:{base['name']}", "group": "component"}, run_components, acc, components_of(E), f"components:{base['name']}")
-    if shard == 21:
-        recipe = {"special": "stepwise", "name": "stepwise", "inputs": [], "outputs": [], "blocks": []}
-        acc.states += 1
-        acc.cls("group_special")
-        acc.guard({"label": "stepwise", "group": "special", "recipe": recipe}, run_recipe, acc, "special", "stepwise", recipe, ALIASES, True)
+    for k, name in enumerate(SPECIAL_ENGINES):
+        if shard == 21 + k:
+            recipe = {"special": name, "name": name, "inputs": [], "outputs": [], "blocks": []}
+            acc.states += 1
+            acc.cls("group_special")
+            acc.guard({"label": name, "group": "special", "recipe": recipe}, run_recipe, acc, "special", name, recipe, ALIASES, True)
+    # engines whose outputs share one defuzzifier / operator instance (the rebuilt engine has one per variable)
+    for k, (recipe, _) in enumerate(c01.space_g("quick")):
+        if k % N_SHARDS == shard:
+            acc.states += 1
+            acc.cls("group_shared")
+            acc.guard({"label": f"G{k}", "group": "shared", "recipe": recipe}, run_recipe, acc, "shared", f"G{k}:shared-instances", recipe, [ALIASES[k % 4]], False)
     if shard == 20:
         acc.guard({"label": "components:standalone", "group": "component"}, run_components, acc, standalone_components(), "components:standalone")
     if shard == 0:
